@@ -147,6 +147,19 @@ func (b *Builder) AddCapture(captureIndex uint32, isStart bool, next StateID) St
 // look is the assertion type (start/end of text/line).
 // next is the state to transition to if the assertion succeeds.
 func (b *Builder) AddLook(look Look, next StateID) StateID {
+	// Assertions look at the neighbouring bytes, so the bytes they tell apart
+	// must not share an equivalence class: a DFA transition computed for one
+	// byte of a class is reused for every other byte of it.
+	switch look {
+	case LookStartLine, LookEndLine:
+		b.byteClassSet.SetRange('\n', '\n')
+	case LookWordBoundary, LookNoWordBoundary:
+		b.byteClassSet.SetRange('0', '9')
+		b.byteClassSet.SetRange('A', 'Z')
+		b.byteClassSet.SetRange('_', '_')
+		b.byteClassSet.SetRange('a', 'z')
+	}
+
 	id := StateID(conv.IntToUint32(len(b.states)))
 	b.states = append(b.states, State{
 		id:   id,
